@@ -162,6 +162,9 @@ func c01attrCheck(r *Run, c *c01attrCtx, cols, rows []int, how int) (sig, what s
 	if r != nil && strings.HasPrefix(pre, "ok ") {
 		spec, post := strings.TrimPrefix(pre, "ok "), xl.VerifC01Cols(g, "Sheet1")
 		if n, _ := strconv.Atoi(strings.Fields(spec)[0]); n <= 4000 {
+			if cs, ok := c01colsParse(spec); ok && !c01colsWf(cs) {
+				return "attr:inv-cols-overlap", "the <cols> list built through the column setters has overlapping or ill-formed ranges: " + spec
+			}
 			ln := r.Op("hmcols "+spec, post)
 			r.Stat("hmcols:" + strings.SplitN(post, " ", 2)[0])
 			c01colsOracle(r, "hmcols", spec, post, ln)
